@@ -4,6 +4,13 @@
    always_checkpoint, typed, number of callers); `dict s` = entries of the running loop, `dicts s g` = the dict of
    generation g (a dict discarded by cache_clear() lives on for the calls that hold it).
 
+   Changed with /repo c2fb7fb (fix of F53): Lock.acquire() awaits checkpoint_if_cancelled() before it looks at the lock,
+   so a call issued inside an already cancelled scope (op CallX) suspends at the lock entry and is then cancelled
+   WHATEVER the state of the lock; it no longer becomes a queued waiter of a busy lock (before: queued, then cancelled
+   by the scope's delivery).  A cancelled caller therefore never counts as a waiter for evicts_waited (the F8 window
+   shrinks to waiters that really queued); all witnesses and corpus histories of F3 / F8 / F30 / F31 / F32 / F41 still
+   reproduce.
+
    Boolean predicates on the op list (sticky ghost flags of the machine) and what they exclude:
      no_inflight_eviction  = evicts_inflight = false        (F3)  no miss ever pops a placeholder whose lock some caller
                                                                    holds or waits for
